@@ -622,6 +622,9 @@ impl super::Transport for ArcCC {
 pub mod verif {
     use tokio::time::{Duration, Instant};
 
+    /// number of packet numbers `PacketSpace::on_ack_rcvd` stepped through (one per inner-loop iteration)
+    pub static ACK_LOOP_TICKS: std::sync::atomic::AtomicU64 = std::sync::atomic::AtomicU64::new(0);
+
     /// (packet_number, time_sent, ack_eliciting, count_for_cc, sent_bytes, state 0=Inflight 1=Acked 2=Retransmitted)
     pub type Pkt = (u64, Instant, bool, bool, usize, u8);
 
